@@ -210,6 +210,16 @@ def _cases():
     for nm, arr in (('small-steps', np.array([0.3, 0.7, 1.1, 2.9, 3.5])), ('step-up', np.array([0.3, 0.7, 5.3])), ('step-down', np.array([6.0, 5.5, 0.4]))):
         C.append(('unwrap-' + nm, lambda c, arr=arr: unwrap_case(c, arr)))
 
+    def deg2rad_case(c):
+        # (one non-zero element: the exact comparison fixes the symbolic pi from it)
+        for ax in npshim.pi_axioms():
+            c.assume(ax)
+        return npshim.deg2rad(sym(c, np.array([0.0, 90.0]))), np.deg2rad(np.array([0.0, 90.0]))
+    C.append(('deg2rad', deg2rad_case))
+    C.append(('arange-step', lambda c: (npshim.arange(0, 360, 51), np.arange(0, 360, 51))))
+    C.append(('arange-negative-step', lambda c: (npshim.arange(5, -3, -2), np.arange(5, -3, -2))))
+    C.append(('arange-step-empty', lambda c: (npshim.arange(4, 4, 3), np.arange(4, 4, 3))))
+
     def hstack_var(c):
         pieces = [np.array([4, 7]), np.array([], dtype=int), np.array([1, 1, 9])]
         LEN = z3.Function('lc_len', I, I)
@@ -316,6 +326,17 @@ def _cases():
         r[1] = 9.0
         return [(w_, rw), (w2, rw2), (cp, rcp)]
     C.append(('asarray-aliases-array-copies', asarray_alias))
+
+    def astype_alias(c):
+        x = sym(c, a5.copy())
+        same = x.astype(float, copy=False)      # dtype already matches: the same array
+        fresh = x.astype(float)                 # a copy
+        x[1] = 9.0
+        r = a5.copy()
+        rsame, rfresh = r.astype(float, copy=False), r.astype(float)
+        r[1] = 9.0
+        return [(same, rsame), (fresh, rfresh)]
+    C.append(('astype-copy-false-aliases', astype_alias))
 
     def interval(c):
         t = npshim.arange(-3, 9)
